@@ -444,3 +444,33 @@ case("c13-refactor-event-after-mark", "C13", "refactor", [(H + "complete_stage/h
                             )
                         self._record_completion_event(stage, status)
 """)])
+
+# ------------------------------------------------------------------ C14
+E14 = H + "run_task/error.py"
+case("c14-counter-back-to-attempts", "C14", "mutant", [(E14, "current_attempts = message.retry_count or 0", "current_attempts = message.attempts or 0")], "C14.R")
+case("c14-retry-not-incremented", "C14", "mutant", [(E14, "    retry_message.retry_count = next_attempt\n", "    retry_message.retry_count = current_attempts\n")], "C14.R2")
+case("c14-guard-off-by-limit", "C14", "mutant", [(E14, "        if current_attempts + 1 < max_attempts:", "        if current_attempts + 1 < max_attempts or True:")], "C14.R1")
+case("c14-retry-count-discarded", "C14", "mutant", [("src/stabilize/queue/sqlite/serialization.py", """    data.pop("max_attempts", None)
+""", """    data.pop("max_attempts", None)
+    data.pop("retry_count", None)
+""")], "C14.R3")
+case("c14-non-transient-retried", "C14", "mutant", [(E14, "    if is_transient(exception):\n        logger.info(", "    if is_transient(exception) or True:\n        logger.info(")], "C14.R1")
+case("c14-progress-stored-separately", "C14", "mutant", [(E14, """            # Atomic: store stage with context update + push retry message
+            txn_helper.execute_atomic(
+                stage=fresh_stage,
+                messages_to_push=[(retry_message, delay.total_seconds())],
+                handler_name="RunTask",
+            )""", """            repository.store_stage(fresh_stage)
+            txn_helper.execute_atomic(
+                messages_to_push=[(retry_message, delay.total_seconds())],
+                handler_name="RunTask",
+            )""")], "C14.R4")
+case("c14-default-limit-changed", "C14", "mutant", [(E14, "max_attempts = message.max_attempts or 10", "max_attempts = message.max_attempts or 1000")], "C14.R1")
+case("c14-refactor-rename-counter", "C14", "refactor", [(E14, "        current_attempts = message.retry_count or 0", "        failures = message.retry_count or 0"), (E14, "        if current_attempts + 1 < max_attempts:", "        if failures + 1 < max_attempts:"),
+                                                          (E14, """                message,
+                exception,
+                current_attempts,
+                max_attempts,""", """                message,
+                exception,
+                failures,
+                max_attempts,""")])
